@@ -8,18 +8,21 @@
 (*              free function symbol -> exhaustive model checking, where   *)
 (*              equality of terms means "the same sponge computation".     *)
 (*                                                                         *)
-(* A permutation state is a record [base, d].  d is a 40-tuple of bytes;   *)
-(* base is <<>> in every concrete state.  In the symbolic instance the     *)
-(* value of state byte i is  byte_i(base) XOR d[i], where base is the term *)
-(* <<"P", firstRound, previousState>>; keeping the permuted term once, in  *)
-(* base, keeps terms linear in the number of permutation calls.            *)
+(* A permutation state is a record [base, d, z].  d is a 40-tuple of       *)
+(* bytes; base is <<>> and z is {} in every concrete state.  In the        *)
+(* symbolic instance base is the term <<"P", firstRound, previousState>>   *)
+(* and the value of state byte i is d[i] if i \in z (the byte has been     *)
+(* overwritten) and byte_i(base) XOR d[i] otherwise.  Keeping the permuted *)
+(* term once, in base, keeps terms linear in the number of permutation     *)
+(* calls: overwriting never copies base into a byte.                       *)
 EXTENDS Naturals, Sequences, SequencesExt
 
 CONSTANTS PermOp(_, _),   \* (state, first round) |-> state
           BX(_, _),       \* XOR of two bytes
           BC(_),          \* the constant byte with integer value 0..255
           BBit(_, _),     \* BBit(b, j): 0x80 if bit j (7 = msb) of b is set, else 0x00
-          BBase(_, _)     \* BBase(base, i): byte i (1..40) of the permuted term
+          BBase(_, _),    \* BBase(base, i): byte i (1..40) of the permuted term
+          BHas(_, _, _)   \* BHas(b, base, i): b syntactically contains BBase(base, i) (FALSE concretely)
 
 -----------------------------------------------------------------------------
 (* strict sequences: TLC evaluates [i \in S |-> e] lazily                  *)
@@ -34,12 +37,12 @@ Min2(a, b) == IF a < b THEN a ELSE b
 
 -----------------------------------------------------------------------------
 (* permutation state                                                       *)
-State0 == [base |-> <<>>, d |-> Zeros(40)]
+State0 == [base |-> <<>>, d |-> Zeros(40), z |-> {}]
 
 P(S, first) == PermOp(S, first)
 
 \* byte i (1..40)
-SG(S, i) == IF S.base = <<>> THEN S.d[i] ELSE BX(S.d[i], BBase(S.base, i))
+SG(S, i) == IF S.base = <<>> \/ i \in S.z THEN S.d[i] ELSE BX(S.d[i], BBase(S.base, i))
 
 \* n bytes from 0-based offset off
 Ext(S, off, n) == Strict([i \in 1..n |-> SG(S, off + i)], n)
@@ -51,15 +54,18 @@ XorIn(S, off, data) ==
   [S EXCEPT !.d = Strict([j \in 1..40 |->
                     IF j > off /\ j <= off + n THEN BX(S.d[j], data[j - off]) ELSE S.d[j]], 40)]
 
-\* overwrite state bytes at 0-based offset off
+\* overwrite state bytes at 0-based offset off.  A new value that is "the old byte XOR x"
+\* (encryption: c = s XOR m) is stored as an XOR into the byte, so that the base term is not
+\* copied; any other value is stored as such and the position is marked overwritten.
 Ovw(S, off, data) ==
-  LET n == Len(data) IN
-  IF n = 0 THEN S ELSE
+  LET n == Len(data)
+      In(j) == j > off /\ j <= off + n
+      Keep(j) == S.base # <<>> /\ j \notin S.z /\ BHas(data[j - off], S.base, j)
+  IN IF n = 0 THEN S ELSE
   [S EXCEPT !.d = Strict([j \in 1..40 |->
-                    IF j > off /\ j <= off + n
-                    THEN (IF S.base = <<>> THEN data[j - off]
-                          ELSE BX(data[j - off], BBase(S.base, j)))
-                    ELSE S.d[j]], 40)]
+                    IF In(j) THEN (IF Keep(j) THEN BX(data[j - off], BBase(S.base, j)) ELSE data[j - off])
+                    ELSE S.d[j]], 40),
+            !.z = IF S.base = <<>> THEN {} ELSE S.z \cup {j \in (off + 1)..(off + n) : ~Keep(j)}]
 
 Pad(S, off)  == XorIn(S, off, <<BC(128)>>)      \* the 1 bit of 10* padding at byte offset off
 Sep(S)       == XorIn(S, 39, <<BC(1)>>)         \* domain separation: flip the last bit of the state
